@@ -1584,3 +1584,204 @@ func ruleCMP8(c *Ctx) []Ob {
 	}
 	return o.list
 }
+
+// ---------------------------------------------------------------- DOC1
+
+// DOC1: how a dotted field path is walked. The function behind Get/Has/Set
+// (package document: takes the path, the field map and the create flag) is
+// abstractly evaluated on constant paths - the evaluator folds the string
+// operations - with map lookups answered by the rule: every lookup finds a
+// sub-map (the full-path case), or the k-th lookup finds nothing. The sequence
+// of (map, key) lookups must be exactly the segments strings.Split(path, ".")
+// gives, one level per segment, including empty segments ("a." is "a" then "");
+// the map and name returned must be the last level's; without the create flag a
+// miss yields (nil, nil, ""); with it, a missing inner level is created and
+// linked under its segment, and nothing is created for the last segment.
+func ruleDOC1(c *Ctx) []Ob {
+	o := newObs(c, "DOC1")
+	var walk *ssa.Function
+	for _, fn := range c.LibFuncs {
+		if c.pkgRel(fn) != "document" || fn.Parent() != nil || len(fn.Params) != 3 {
+			continue
+		}
+		p := fn.Params
+		if !isStringType(p[0].Type()) {
+			continue
+		}
+		if _, ok := p[1].Type().Underlying().(*types.Map); !ok {
+			continue
+		}
+		if bt, ok := p[2].Type().Underlying().(*types.Basic); !ok || bt.Kind() != types.Bool {
+			continue
+		}
+		walk = fn
+	}
+	if walk == nil || walk.Signature.Results().Len() != 3 {
+		o.add(UNDECIDED, "path walker", "-", "func(path string, fields map, create bool) (map, value, name) not found in package document")
+		return softenUndecided(o.list)
+	}
+	pos := relPath(c, walk.Pos())
+	mapT := walk.Params[1].Type()
+	mapVal := func(id int64) aval { return aval{K: aTag, Tag: mapT, C: constant.MakeInt64(id)} }
+	idOf := func(a aval) (int64, bool) {
+		if a.C != nil && a.C.Kind() == constant.Int && (a.K == aConst || a.K == aTag) {
+			k, _ := constant.Int64Val(a.C)
+			return k, true
+		}
+		return 0, false
+	}
+	type look struct {
+		m   int64
+		key string
+	}
+	paths := []string{"a", "a.b", "a.b.c", "a.", ".a", "a..b", ""}
+	for _, path := range paths {
+		segs := strings.Split(path, ".")
+		for _, force := range []bool{false, true} {
+			// miss = -1: every level exists; otherwise the lookup of segment #miss finds nothing
+			for miss := -1; miss < len(segs); miss++ {
+				var looks []look
+				var found []int64 // the sub-map each lookup returned (-1: nothing)
+				type upd struct {
+					m   int64
+					key string
+					v   int64
+				}
+				var upds []upd
+				next := int64(100)
+				undec := ""
+				te := c.newTagEval()
+				te.maxVisits = 8
+				te.lookupHook = func(l *ssa.Lookup, m, k aval) ([]aval, bool) {
+					id, ok1 := idOf(m)
+					if !ok1 || k.K != aConst || k.C == nil || k.C.Kind() != constant.String {
+						undec = "a lookup whose map or key the evaluator does not know"
+						return []aval{{}, {}}, true
+					}
+					looks = append(looks, look{id, constant.StringVal(k.C)})
+					if len(looks)-1 == miss {
+						found = append(found, -1)
+						return []aval{{K: aTag, Tag: nil}, boolConst(false)}, true
+					}
+					next++
+					found = append(found, next)
+					return []aval{mapVal(next), boolConst(true)}, true
+				}
+				te.makeMapHook = func(mm *ssa.MakeMap) (aval, bool) {
+					next++
+					return aval{K: aConst, C: constant.MakeInt64(next)}, true
+				}
+				te.mapUpdateObs = func(u *ssa.MapUpdate, m, k, v aval) {
+					mi, ok1 := idOf(m)
+					vi, ok3 := idOf(v)
+					if !ok1 || !ok3 || k.K != aConst || k.C == nil || k.C.Kind() != constant.String {
+						undec = "a map assignment the evaluator cannot identify"
+						return
+					}
+					upds = append(upds, upd{mi, constant.StringVal(k.C), vi})
+				}
+				outs := te.Eval(walk, []aval{{K: aConst, C: constant.MakeString(path)}, {K: aConst, C: constant.MakeInt64(1)}, boolConst(force)}, 0)
+				key := fmt.Sprintf("%s/path %q create=%v miss=%d", c.fname(walk), path, force, miss)
+				if undec == "" && (len(outs) != 1 || outs[0].Panic || len(outs[0].Vals) != 3) {
+					undec = fmt.Sprintf("%d outcomes", len(outs))
+					if len(outs) > 0 && outs[0].Panic {
+						undec = "panics: " + outs[0].Why
+					}
+				}
+				if undec != "" {
+					o.add(UNDECIDED, key, pos, "%s", undec)
+					continue
+				}
+				// expected lookups
+				bad := ""
+				cur := int64(1)
+				wantN := len(segs)
+				if !force && miss >= 0 {
+					wantN = miss + 1
+				}
+				if len(looks) != wantN {
+					bad = fmt.Sprintf("%d map lookups for %d path segments %q", len(looks), wantN, segs[:wantN])
+				}
+				created := map[int]int64{}
+				for i := 0; bad == "" && i < len(looks); i++ {
+					if looks[i].key != segs[i] {
+						bad = fmt.Sprintf("level %d is looked up under %q, the segment is %q", i, looks[i].key, segs[i])
+						break
+					}
+					if looks[i].m != cur {
+						bad = fmt.Sprintf("level %d is looked up in the wrong map", i)
+						break
+					}
+					// the map the next level lives in
+					if i == miss {
+						if force && i < len(segs)-1 {
+							// must have been created and linked
+							linked := false
+							for _, u := range upds {
+								if u.m == cur && u.key == segs[i] {
+									linked = true
+									created[i] = u.v
+									cur = u.v
+								}
+							}
+							if !linked {
+								bad = fmt.Sprintf("the missing level %q is not created and linked", segs[i])
+							}
+						}
+					} else {
+						cur = found[i]
+					}
+				}
+				if bad == "" {
+					rv := outs[0].Vals
+					name, _ := func() (string, bool) {
+						if rv[2].K == aConst && rv[2].C != nil && rv[2].C.Kind() == constant.String {
+							return constant.StringVal(rv[2].C), true
+						}
+						return "?", false
+					}()
+					mid, mok := idOf(rv[0])
+					isNilMap := (rv[0].K == aConst && rv[0].C == nil) || (rv[0].K == aTag && rv[0].Tag == nil)
+					switch {
+					case !force && miss >= 0:
+						if !isNilMap || name != "" {
+							bad = "a missing level must yield (nil, nil, \"\")"
+						}
+					default:
+						// the map holding the last segment
+						wantMap := int64(1)
+						for i := 0; i < len(segs)-1; i++ {
+							if v, ok := created[i]; ok {
+								wantMap = v
+							} else if i < len(found) {
+								wantMap = found[i]
+							}
+						}
+						if !mok || mid != wantMap {
+							bad = fmt.Sprintf("the map returned is not the one holding the last segment %q", segs[len(segs)-1])
+						} else if name != segs[len(segs)-1] {
+							bad = fmt.Sprintf("the name returned is %q, the last segment is %q", name, segs[len(segs)-1])
+						}
+						for _, u := range upds {
+							lastLevel := true
+							for i, v := range created {
+								if v == u.v && i < len(segs)-1 {
+									lastLevel = false
+								}
+							}
+							if lastLevel {
+								bad = fmt.Sprintf("a map is created for the last segment %q (it would replace the value stored there)", u.key)
+							}
+						}
+					}
+				}
+				if bad != "" {
+					o.add(VIOLATED, key, pos, "%s", bad)
+				} else {
+					o.add(OK, key, pos, "one lookup per segment of %q, right map and name returned", segs)
+				}
+			}
+		}
+	}
+	return softenUndecided(o.list)
+}
